@@ -90,6 +90,15 @@ MUTANTS = [
     ("C10", "align-evict-early", "typhon/files/fileset.py", "                if not secondary_usage[secondary_file]:\n                    del cache[secondary_file]", "                if secondary_usage[secondary_file] <= 1:\n                    cache.pop(secondary_file, None)"),
     ("C10", "e2w-always", "typhon/files/fileset.py", "            except Exception as e:\n                if error_to_warning:\n                    msg = f\"[ERROR] Could not read the file(s):", "            except Exception as e:\n                if True:\n                    msg = f\"[ERROR] Could not read the file(s):"),
     ("C10", "collect-keeps-none-drops-order", "typhon/files/fileset.py", "        results = self.map(**map_args)\n\n        # Tell the python interpreter explicitly to free up memory to improve\n        # performance (see https://stackoverflow.com/q/1316767/9144990):\n        gc.collect()", "        results = self.map(**map_args)[::-1]\n\n        gc.collect()"),
+    ("C11", "target-times-reversed", "typhon/files/fileset.py", "        new_filename = destination.get_filename(\n            file_info.times, fill=file_info.attr\n        )\n\n        # Shall we simply move", "        new_filename = destination.get_filename(\n            (file_info.times[0], file_info.times[0]), fill=file_info.attr\n        )\n\n        # Shall we simply move"),
+    ("C11", "remove-on-copy", "typhon/files/fileset.py", "            if not copy:\n                os.remove(file_info.path)", "            if True:\n                os.remove(file_info.path)"),
+    ("C11", "copy-instead-of-move", "typhon/files/fileset.py", "            if copy:\n                fileset.file_system.copy(file_info.path, new_filename)\n            else:\n                fileset.file_system.move(file_info.path, new_filename)", "            fileset.file_system.copy(file_info.path, new_filename)"),
+    ("C11", "dry-run-deletes", "typhon/files/fileset.py", "        if dry_run:\n            self.map(FileSet._dry_delete, **kwargs)", "        if dry_run:\n            self.map(FileSet._delete_single_file, **kwargs)"),
+    ("C11", "delete-ignores-selection", "typhon/files/fileset.py", "            self.map(\n                FileSet._delete_single_file, **kwargs\n            )", "            self.map(\n                FileSet._delete_single_file\n            )"),
+    ("C11", "setitem-end-is-start", "typhon/files/fileset.py", "            start = time_args.start\n            end = time_args.stop", "            start = time_args.start\n            end = time_args.start"),
+    ("C11", "no-compress-on-write", "typhon/files/fileset.py", "        if self.compress:\n            with typhon.files.compress(file_info.path, tmpdir=self.temp_dir) \\\n                    as compressed_path:", "        if False:\n            with typhon.files.compress(file_info.path, tmpdir=self.temp_dir) \\\n                    as compressed_path:"),
+    ("C11", "move-self-call", "typhon/files/fileset.py", "    @staticmethod\n    def _move_single_file(\n            file_info, fileset, destination, convert, copy):", "    def _move_single_file(self,\n            file_info, fileset, destination, convert, copy):"),
+    ("C11", "convert-skipped", "typhon/files/fileset.py", "            # Maybe the user has given us a converting function?\n            if callable(convert):", "            data = None if False else data\n            if callable(convert):"),
 ]
 
 
